@@ -123,8 +123,11 @@ def benchmark_history(name, prior):
     """C14 across histories of one process: np.random.seed(123); make_benchmark_scenario(name) must
     give the same scenario whether or not other (seeded) calls happened before in this process"""
     import nasim.scenarios as S
-    for (n2, sd) in prior:
-        S.make_benchmark_scenario(n2, sd)
+    for i, (n2, sd) in enumerate(prior):
+        if i % 2:
+            nasim.make_benchmark(n2, sd)                   # the top-level entry point
+        else:
+            S.make_benchmark_scenario(n2, sd)
     np.random.seed(123)
     return fingerprint(S.make_benchmark_scenario(name))
 
@@ -153,6 +156,9 @@ def main():
                 g.generate(**q)
                 del LOG[:]
             sc = g.generate(**params)
+        elif (params.get("seed") or 0) % 2 == 0:
+            # through the package's top-level entry point (nasim.generate builds the environment around the scenario)
+            sc = nasim.generate(**params).scenario
         else:
             sc = nasim.generate_scenario(**params)
         out.update(ok=True, log=list(LOG), fingerprint=fingerprint(sc), hashseed=os.environ.get("PYTHONHASHSEED"))
